@@ -124,6 +124,8 @@ type Sim struct {
 	hash         uint64
 	schedHash    uint64
 	exits        int
+	compacted    int     // value of exits at the last compaction of live
+	live         []*Task // tasks that have not ended, by id (compacted now and then)
 	states       map[uint64]struct{}
 	trace        []string
 	Panics       []Panic
@@ -132,6 +134,7 @@ type Sim struct {
 	BlockedAtEnd string // where the unfinished tasks were when a run ended without finishing
 
 	lateTotal   time.Duration // sum of injected timer lateness
+	slacks      []slackRec    // every injected delay: when it began and how long it lasted
 	forcedJump  time.Duration // sum of spin-guard clock jumps
 	sameInstant int
 
@@ -226,6 +229,7 @@ func (s *Sim) Stamp() (time.Duration, uint64) {
 func (s *Sim) AddSlack(d time.Duration) {
 	s.mu.Lock()
 	s.lateTotal += d
+	s.slacks = append(s.slacks, slackRec{s.now, d})
 	s.mu.Unlock()
 }
 
@@ -236,6 +240,30 @@ func (s *Sim) LateTotal() time.Duration {
 	// (spin-guard jumps move the clock to the next event's due time: nothing fires late because
 	// of them, so they are not slack)
 	return s.lateTotal
+}
+
+type slackRec struct{ at, d time.Duration }
+
+// SlackBetween is the sum of the injected delays that were in force at some instant of [t0, t1],
+// the window being extended by that very sum until it no longer grows: no chain of library actions
+// that begins at t0 and needs t1-t0 of undisturbed time can end later than t1 + SlackBetween(t0, t1),
+// because every delay that holds it up is in force inside the extended window.
+func (s *Sim) SlackBetween(t0, t1 time.Duration) time.Duration {
+	s.mu.Lock()
+	defer s.mu.Unlock()
+	var sum time.Duration
+	for {
+		var n time.Duration
+		for _, r := range s.slacks {
+			if r.at <= t1+sum && r.at+r.d >= t0 {
+				n += r.d
+			}
+		}
+		if n == sum {
+			return sum
+		}
+		sum = n
+	}
 }
 
 // Probe counts a reach probe.
@@ -319,7 +347,7 @@ func fnvStr(h uint64, str string) uint64 {
 // sampleStateLocked records the abstract state at a quiescent point.
 func (s *Sim) sampleStateLocked() {
 	var sum uint64 // order independent combination over tasks
-	for _, t := range s.tasks {
+	for _, t := range s.live {
 		if t.state == tsDone {
 			continue
 		}
@@ -487,6 +515,10 @@ func AbortCh() <-chan struct{} {
 // Aborted unwinds the calling goroutine at teardown.
 func Aborted() { panic(abortPanic{}) }
 
+// IsAbort reports whether a recovered value is the simulator unwinding a task at the end of a run;
+// harness code that recovers from panics must pass it on (panic(r)) and do nothing else.
+func IsAbort(r interface{}) bool { _, ok := r.(abortPanic); return ok }
+
 func goid() int64 {
 	var buf [64]byte
 	n := runtime.Stack(buf[:], false)
@@ -509,6 +541,7 @@ func (s *Sim) spawn(name, site string, lib bool, fn func()) *Task {
 	}
 	t := &Task{ID: len(s.tasks), Name: name, SpawnSite: site, Lib: lib, Parent: parent, wake: make(chan struct{}, 1), state: tsNew, site: "start"}
 	s.tasks = append(s.tasks, t)
+	s.live = append(s.live, t)
 	if s.cfg.PCTDepth > 0 {
 		t.prio = 1 + s.Dec.Choose("pct.prio", 1<<16)
 	}
@@ -522,6 +555,7 @@ func (s *Sim) spawn(name, site string, lib bool, fn func()) *Task {
 		t.blocked = "starved"
 		s.Stats.Starved++
 		s.lateTotal += d
+		s.slacks = append(s.slacks, slackRec{s.now, d})
 		s.logLocked("starve T%d %v", t.ID, d)
 		s.atLocked(d, fmt.Sprintf("unstarve T%d", t.ID), false, func() {
 			s.mu.Lock()
@@ -652,6 +686,7 @@ func (s *Sim) maybeStall(t *Task) {
 	t.blocked = "stalled"
 	s.Stats.Stalled++
 	s.lateTotal += d
+	s.slacks = append(s.slacks, slackRec{s.now, d})
 	s.logLocked("stall T%d %v", t.ID, d)
 	s.atLocked(d, fmt.Sprintf("unstall T%d", t.ID), false, func() {
 		s.mu.Lock()
@@ -789,7 +824,21 @@ func (s *Sim) Run(root func()) {
 		if s.last != nil && s.enabledLocked(s.last) {
 			en = append(en, choice{task: s.last})
 		}
-		for _, t := range s.tasks {
+		if s.exits-s.compacted > 64 && s.exits-s.compacted > len(s.live)/2 {
+			// drop the tasks that have ended from the list the scheduler walks at every step (a run
+			// that spawns tens of thousands of short-lived goroutines would otherwise crawl)
+			k := 0
+			for _, t := range s.live {
+				if t.state != tsDone {
+					s.live[k] = t
+					k++
+				}
+			}
+			clear(s.live[k:])
+			s.live = s.live[:k]
+			s.compacted = s.exits
+		}
+		for _, t := range s.live {
 			if t != s.last && s.enabledLocked(t) {
 				en = append(en, choice{task: t})
 			}
@@ -904,6 +953,7 @@ func (s *Sim) Run(root func()) {
 				e.postponed = true
 				heap.Push(&s.events, e)
 				s.lateTotal += d
+				s.slacks = append(s.slacks, slackRec{s.now, d})
 				s.Stats.TimerLate++
 				s.logLocked("late %s +%v", e.desc, d)
 				s.mu.Unlock()
